@@ -7,7 +7,10 @@ use crate::util::Address;
 use crate::util::heap::layout::vm_layout::*;
 use std::fmt;
 use std::sync::atomic::Ordering;
+#[cfg(not(mmtk_verif))]
 use std::sync::Mutex;
+#[cfg(mmtk_verif)]
+use crate::util::verif::sync::Mutex;
 
 use crate::util::os::MmapResult;
 use atomic::Atomic;
